@@ -1166,20 +1166,35 @@ theorem removeFold_ok (cfg : Cfg) (ks : List Key) :
     · have : ¬ k = a := fun h => e h.symm
       simp [e, this]
 
-theorem removeWithPrefix_ok (cfg : Cfg) (w : W) (hi : MemInv w.mem) (p : Bytes) :
-    MemInv (opRemoveWithPrefix cfg w p).1.mem
-      ∧ (opRemoveWithPrefix cfg w p).1.abs = specStep cfg.lim w.abs (.removeWithPrefix p)
-      ∧ OutOK cfg.lim w.abs (.removeWithPrefix p) (opRemoveWithPrefix cfg w p).2 := by
+/-- the order handed in is used only when it lists exactly the matching keys, each once -/
+theorem prefixOrder_spec (m : Mem) (now : Int) (p : Bytes) (ord : List Key) :
+    (prefixOrder m now p ord).Perm (keysWithPrefix m now p) := by
+  unfold prefixOrder
+  split
+  · next h => exact List.isPerm_iff.mp h
+  · exact List.Perm.refl _
+
+theorem prefixOrder_mem (m : Mem) (now : Int) (p : Bytes) (ord : List Key) (k : Key) :
+    k ∈ prefixOrder m now p ord ↔ k ∈ keysWithPrefix m now p := (prefixOrder_spec m now p ord).mem_iff
+
+theorem removeWithPrefix_ok (cfg : Cfg) (w : W) (hi : MemInv w.mem) (p : Bytes) (ord : List Key) :
+    MemInv (opRemoveWithPrefix cfg w p ord).1.mem
+      ∧ (opRemoveWithPrefix cfg w p ord).1.abs = specStep cfg.lim w.abs (.removeWithPrefix p ord)
+      ∧ OutOK cfg.lim w.abs (.removeWithPrefix p ord) (opRemoveWithPrefix cfg w p ord).2 := by
   unfold opRemoveWithPrefix
   obtain ⟨hn, hm⟩ := keysWithPrefix_spec w hi p
-  obtain ⟨h1, h2⟩ := removeFold_ok cfg (keysWithPrefix w.mem w.now p) w hi
-  refine ⟨h1, ?_, ⟨_, hn, hm, rfl⟩⟩
+  have hperm := prefixOrder_spec w.mem w.now p ord
+  have hn' : (prefixOrder w.mem w.now p ord).Nodup := hperm.nodup_iff.mpr hn
+  have hm' : ∀ k, k ∈ prefixOrder w.mem w.now p ord ↔ (p.isPrefixOf k = true ∧ ((W.abs w).m k).isSome) := fun k =>
+    (prefixOrder_mem w.mem w.now p ord k).trans (hm k)
+  obtain ⟨h1, h2⟩ := removeFold_ok cfg (prefixOrder w.mem w.now p ord) w hi
+  refine ⟨h1, ?_, ⟨_, hn', hm', rfl⟩⟩
   simp only
   rw [h2]
   simp only [specStep, SpecSt.mk.injEq, and_true]
   funext k
-  by_cases hk : k ∈ keysWithPrefix w.mem w.now p
-  · have := (hm k).mp hk
+  by_cases hk : k ∈ prefixOrder w.mem w.now p ord
+  · have := (hm' k).mp hk
     simp [hk, this.1]
   · simp only [hk, ↓reduceIte]
     cases hp : p.isPrefixOf k with
@@ -1188,7 +1203,7 @@ theorem removeWithPrefix_ok (cfg : Cfg) (w : W) (hi : MemInv w.mem) (p : Bytes) 
       simp only [↓reduceIte]
       cases hs : (W.abs w).m k with
       | none => rfl
-      | some x => exact absurd ((hm k).mpr ⟨hp, by rw [hs]; rfl⟩) hk
+      | some x => exact absurd ((hm' k).mpr ⟨hp, by rw [hs]; rfl⟩) hk
 
 /-! ## one step, every operation except `reopen` (which needs the files: `Lemmas/KvFiles.lean`) -/
 
@@ -1209,7 +1224,7 @@ theorem step_mem_ok (cfg : Cfg) (w : W) (hi : MemInv w.mem) (hz : CacheOff cfg w
   | remove k =>
     obtain ⟨h1, h2⟩ := remove_ok cfg { w with tr := [] } hi0 k
     exact ⟨h1, by rw [h2, habs0], rfl⟩
-  | removeWithPrefix p => simpa [habs0] using removeWithPrefix_ok cfg { w with tr := [] } hi0 p
+  | removeWithPrefix p ord => simpa [habs0] using removeWithPrefix_ok cfg { w with tr := [] } hi0 p ord
   | clear =>
     obtain ⟨h1, h2⟩ := clear_ok cfg { w with tr := [] } hi0
     exact ⟨h1, by rw [h2, habs0], rfl⟩
@@ -1392,7 +1407,7 @@ theorem cacheOff_step (cfg : Cfg) (w : W) (hz : CacheOff cfg w.mem) (op : Op) : 
   | setBatchTtl kvs ttl => exact opSetBatchTtl_nil cfg h0 _ hc kvs ttl
   | get k => exact opGet_nil cfg h0 _ hc k
   | remove k => exact opRemove_nil cfg _ hc k
-  | removeWithPrefix p => exact removeFold_nil cfg _ _ hc
+  | removeWithPrefix p ord => exact removeFold_nil cfg _ _ hc
   | clear => exact maybeCompact_nil cfg _ rfl
   | expireAt k t => exact opExpireAt_nil cfg _ hc k t
   | persist k => exact opPersist_nil cfg _ hc k
